@@ -32,6 +32,7 @@ type context struct {
 	ip       int                           // instruction pointer
 	m        *memory.Type                  // variables
 	parent   *context                      // parent context
+	tmp      value.Type                    // temp register while the context is suspended in a yield
 	children *intmap.Map[uint64, *context] // child contexts
 }
 
@@ -469,6 +470,8 @@ func (vm *Type) Run(retResult bool) (value.Type, error) {
 
 			m = ctxp.m
 			ip = ctxp.ip
+			// a yield evaluates to the yielded value, whatever the loop body did to the temp register
+			tmp = ctxp.tmp
 
 		case bytecode.YIELD:
 			tmp = vm.fetch(instr.Src0(), instr.Src0Addr(), m, ds)
@@ -477,6 +480,7 @@ func (vm *Type) Run(retResult bool) (value.Type, error) {
 			if ctxp.parent != nil {
 				ctxp.m = m
 				ctxp.ip = ip
+				ctxp.tmp = tmp
 
 				ctxp = ctxp.parent
 
